@@ -68,6 +68,42 @@ Section Sort.
   Qed.
 End Sort.
 
+(* a sorted list is determined by its per-key sub-lists: "stable sort" is a specification *)
+Lemma sorted_by_key_unique {A} (key : A -> Z) (l1 : list A) : forall l2,
+  StronglySorted (key_le key) l1 -> StronglySorted (key_le key) l2 ->
+  (forall k, filter (fun y => key y =? k) l1 = filter (fun y => key y =? k) l2) -> l1 = l2.
+Proof.
+  induction l1 as [|a t1 IH]; intros l2 S1 S2 Hf.
+  - destruct l2 as [|b t2]; [reflexivity|]. specialize (Hf (key b)). cbn [filter] in Hf.
+    rewrite Z.eqb_refl in Hf. discriminate.
+  - destruct l2 as [|b t2].
+    + specialize (Hf (key a)). cbn [filter] in Hf. rewrite Z.eqb_refl in Hf. discriminate.
+    + inversion S1 as [|a' t1' S1' F1]; subst. inversion S2 as [|b' t2' S2' F2]; subst.
+      rewrite Forall_forall in F1, F2.
+      assert (Hab : key a = key b).
+      { assert (Ha : In a (filter (fun y => key y =? key a) (b :: t2))).
+        { rewrite <- Hf. cbn [filter]. rewrite Z.eqb_refl. left; reflexivity. }
+        assert (Hb : In b (filter (fun y => key y =? key b) (a :: t1))).
+        { rewrite Hf. cbn [filter]. rewrite Z.eqb_refl. left; reflexivity. }
+        apply filter_In in Ha. apply filter_In in Hb. destruct Ha as [Ha _]. destruct Hb as [Hb _].
+        assert (key b <= key a) by (destruct Ha as [<-|Ha]; [lia|apply (F2 _ Ha)]).
+        assert (key a <= key b) by (destruct Hb as [<-|Hb]; [lia|apply (F1 _ Hb)]).
+        lia. }
+      pose proof (Hf (key a)) as Hk. cbn [filter] in Hk. rewrite Z.eqb_refl in Hk.
+      rewrite <- Hab, Z.eqb_refl in Hk. inversion Hk as [[Hab' Hrest]]. subst b. f_equal.
+      apply IH; try assumption. intro k. specialize (Hf k). cbn [filter] in Hf.
+      destruct (key a =? k); [inversion Hf; reflexivity|exact Hf].
+Qed.
+
+Theorem stable_sort_unique {A} (key : A -> Z) (l s : list A) :
+  StronglySorted (fun a b => key a <= key b) s ->
+  (forall k, filter (fun y => key y =? k) s = filter (fun y => key y =? k) l) ->
+  s = stable_sort key l.
+Proof.
+  intros Hs Hf. apply (sorted_by_key_unique key); [exact Hs|apply stable_sort_sorted|].
+  intro k. rewrite Hf, stable_sort_stable. reflexivity.
+Qed.
+
 (* ------------------------------------------------------------------ *)
 (* the collect-up-to-cap loop                                          *)
 (* ------------------------------------------------------------------ *)
@@ -349,6 +385,13 @@ Proof.
   - apply (stable_sort_sorted de_block).
   - intro b. apply stable_sort_stable.
 Qed.
+
+Theorem dep_sorted_unique wallet evs s :
+  StronglySorted (fun a b => de_block a <= de_block b) s ->
+  (forall b, filter (fun e => de_block e =? b) s
+             = filter (fun e => de_block e =? b) (filter (dep_visible wallet) evs)) ->
+  s = dep_sorted wallet evs.
+Proof. apply stable_sort_unique. Qed.
 
 (* ---- executable form ---- *)
 Lemma deposit_eqb_eq a b : deposit_eqb a b = true <-> a = b.
